@@ -78,6 +78,17 @@ def judge(case, obs, res):
             judge_exact(t, o, res)
 
 
+def _numbers(v):
+    if isinstance(v, (int, float)) and not isinstance(v, bool):
+        yield v
+    elif isinstance(v, list):
+        for x in v:
+            yield from _numbers(x)
+    elif isinstance(v, dict):
+        for x in v.values():
+            yield from _numbers(x)
+
+
 def judge_reject(t, o, res):
     if "ok" in o:
         res.violate("canon-accepts-non-integer",
@@ -195,10 +206,27 @@ def main(ctx):
     # rejection classes (complete list, every run) embedded at several depths
     rng = ctx.rng(999)
     rej, exa = [], []
+    probes = []
     for t in REJECT_TEXTS:
         rej += [t, f'[{t}]', f'{{"a":{{"b":[1,{t}]}}}}']
+        # history: a valid value canonicalised right after a rejected one (same process, same thread)
+        probes += [f'[1,{{"a":"x"}},{t}]', '{"b":[1,2,3],"a":"x"}', f'{{"k":[1,{{"a":"x","b":[1,2,3]}},{t}]}}', '["after",{"z":0,"a":[]}]']
     for t in EXACT_OR_REJECT:
         exa.append(t)
+    po = common.run_batch(ctx.bin, [{"op": "canon", "texts": probes}], keys=False)[0]
+    if "res" in po:
+        for t, r in zip(probes, po["res"]):
+            try:
+                v = json.loads(t)
+            except ValueError:
+                continue
+            if any(isinstance(x, float) for x in _numbers(v)):
+                judge_reject(t, r, res)
+                continue
+            res.note(["probe", t], True, cls="value_after_rejected_document")
+            judge_value(v, [t], [r], res, "after-rejected-document")
+    else:
+        res.inconclusive.append("executor failure in history probes")
     o = common.run_batch(ctx.bin, [{"op": "canon", "texts": rej}, {"op": "canon", "texts": exa}], keys=False)
     if "res" not in o[0] or "res" not in o[1]:
         res.inconclusive.append("executor failure in rejection class")
@@ -223,6 +251,6 @@ def main(ctx):
              "number rejection classes",
         assumptions=["Python json.dumps(sort_keys, ensure_ascii=False, separators) is the reference encoder",
                      "serde_json is the parser that defines 'the same value' for a spelling"],
-        required=["value:dict", "value:list", "value:str", "value:int", "non_integer_rejected",
+        required=["value:dict", "value:list", "value:str", "value:int", "non_integer_rejected", "value_after_rejected_document",
                   "unicode_scalars_as_string_and_key"],
         min_evals=10000)
